@@ -30,8 +30,12 @@ def atom_array(name, shape, root=None, kind='real', offset=None):
 class World:
     """one mesh class, sizes symbolic (sizes=None) or concrete ints"""
 
-    def __init__(self, sm: SourceModel, meshcls: str, sizes=None, uniform=False):
+    def __init__(self, sm: SourceModel, meshcls: str, sizes=None, uniform=False, int_data=False):
         self.sm = sm
+        # int_data: the user-supplied arrays (face positions, cell values) have an integer dtype - a legal input; every
+        # array the library derives from them by true division or by mixing with floats is real, and a store of such a
+        # value into an integer array truncates (arrays._trunc)
+        self.int_data = int_data
         self.meshcls = meshcls
         self.dim = DIM[meshcls]
         self.ctx = Ctx()
@@ -57,13 +61,14 @@ class World:
         self._zcount = 0
         self._vol = None
         A.ABS_HOOK = _abs_hook_for(self)
+        A.set_int_heads(('f',) if int_data else ())
         self.mesh = self._build_mesh()
 
     # -- mesh -------------------------------------------------------------------------------
     def face_array(self, k):
         ax = AX[k]
         n = self.N[k] + 1
-        return Arr((n,), lambda idx: Rat.atom(('f', ax, idx[0])), 'real', root='arg.facelocation' + ax.upper())
+        return Arr((n,), lambda idx: Rat.atom(('f', ax, idx[0])), 'int' if self.int_data else 'real', root='arg.facelocation' + ax.upper())
 
     def _build_mesh(self):
         d = self.dim
@@ -106,8 +111,19 @@ class World:
             attrs[key] = b
         return AObj('FaceVariable', attrs)
 
-    def cell_variable(self, name, bcs=None):
-        b = Box(atom_array((name,), self.full_shape(), root=f'{name}._value'))
+    def cell_variable(self, name, bcs=None, kind=None):
+        kind = kind or ('int' if self.int_data else 'real')
+        if kind == 'int':
+            # an integer-dtype array is a legal *input*: go through the real constructor (ghost cells included in the
+            # array, so that all values stay free atoms) and take whatever dtype it decides to store
+            if bcs is None:
+                bcs = self.interp.call_function(self.sm.func('boundary', 'BoundaryConditions'), [self.mesh])
+            src = Box(atom_array((name,), self.full_shape(), root=f'arg.{name}', kind='int'))
+            v = self.interp.instantiate('CellVariable', [self.mesh, src, bcs], {'BCsTerm_precalc': False})
+            b = v.attrs['_value']
+            b.frozen = f'{name}._value'
+            return v
+        b = Box(atom_array((name,), self.full_shape(), root=f'{name}._value', kind=kind))
         b.frozen = f'{name}._value'
         b.attrs['tracked'] = True
         b.attrs['_modified'] = False
